@@ -564,7 +564,16 @@ func (t *tab) renderTotal() {
 			for n := 0; n < 200; n++ {
 				in := absint.NewInterp(t.p.SSA, o)
 				loops := map[string]int{}
+				recvKey := ""
+				otherValue := ""
 				in.Hooks.Call = func(in *absint.Interp, callee *ssa.Function, a []absint.Val, site ssa.Instruction) (absint.Val, bool) {
+					// the shortened form is the head of the rendering of the value
+					// itself, not the rendering of some other value made from it
+					if mn == "Abbrev" && callee.Name() == "String" && callee.Signature.Recv() != nil && len(a) > 0 && in.Depth == 1 {
+						if k := absint.Key(a[0]); recvKey != "" && k != recvKey && otherValue == "" {
+							otherValue = k
+						}
+					}
 					if callee.Pkg != nil && (callee.Pkg.Pkg.Path() == "fmt" || callee.Pkg.Pkg.Path() == "strconv") {
 						if mn == "String" && t.kname[k] == "float" {
 							var ks []string
@@ -633,9 +642,13 @@ func (t *tab) renderTotal() {
 					}
 					return nil, false
 				}
-				_, end := in.Run(fn, []absint.Val{t.mkVal("a", k)})
+				recv := t.mkVal("a", k)
+				recvKey = absint.Key(recv)
+				_, end := in.Run(fn, []absint.Val{recv})
 				if end != nil {
 					bad = end.Error()
+				} else if otherValue != "" {
+					bad = "the shortened form renders " + short80(otherValue) + " instead of the value itself: what the report shows is not a prefix of the value (an array cut to its first elements looks complete)"
 				} else if len(cuts) > 0 {
 					bad = "the shortened form cuts " + strings.Join(cuts, ", ") + " without a test on this path that the value cut is at least that long (a slice expression beyond the length fails, or shows spare capacity that is not part of the value)"
 				}
@@ -660,4 +673,11 @@ func scan(key, pattern string, n *int64) bool {
 	}
 	_, err := fmt.Sscanf(key[i:len(key)-len(pattern[i+2:])], "%d", n)
 	return err == nil && fmt.Sprint(*n) == key[i:len(key)-len(pattern[i+2:])]
+}
+
+func short80(s string) string {
+	if len(s) > 80 {
+		return s[:77] + "..."
+	}
+	return s
 }
